@@ -432,10 +432,13 @@ pub fn generate(seed: u64, tier: &str, sink: &mut Sink) {
             // the mark of the very charset in use may be dropped from the text (U+FEFF at the start)
             let sans_bom = |w: &str| -> Option<String> { w.strip_prefix('\u{feff}').map(|x| x.to_string()) };
             let (got, what): (Result<String, String>, &str) = match call {
+                // (every other time through the reader that `split()` hands out: the same reader, the same charset —
+                // seed C18-seed13: the charset resolved lazily by `Response::text` only)
+                0 if text_bytes.len() % 2 == 1 => (resp.split().2.text().map_err(|e| format!("{:?}", e.kind())), "text"),
                 0 => (resp.text().map_err(|e| format!("{:?}", e.kind())), "text"),
                 1 => {
                     let mut s = String::new();
-                    let mut r = resp.text_reader();
+                    let mut r = if segs.len() % 2 == 1 { resp.split().2.text_reader() } else { resp.text_reader() };
                     // small reads: the streaming reader must not depend on them
                     rbuf = if text_bytes.len() % 2 == 0 { 1 + (text_bytes.len() % 3) } else { 4 + (text_bytes.len() % 61) };
                     if let Some((_, _, rb)) = &force {
